@@ -250,6 +250,10 @@ MessageQueue_countEntriesUntilEndOfBuffer(MessageQueue self, uint8_t* firstEntry
 static void
 MessageQueue_enqueueASDU(MessageQueue self, CS101_ASDU asdu)
 {
+    /* the queues exist between start and stop/destroy only: an ASDU enqueued outside is dropped */
+    if (self == NULL)
+        return;
+
     int asduSize = asdu->asduHeaderLength + asdu->payloadSize;
 
     if (asduSize > 256 - IEC60870_5_104_APCI_LENGTH)
@@ -4270,7 +4274,11 @@ CS104_Slave_enqueueASDU(CS104_Slave self, CS101_ASDU asdu)
          * Dispatch event to all redundancy groups
          ************************************************/
 
-        LinkedList element = LinkedList_getNext(self->redundancyGroups);
+        LinkedList element = NULL;
+
+        /* no redundancy group before the first start */
+        if (self->redundancyGroups)
+            element = LinkedList_getNext(self->redundancyGroups);
 
         while (element)
         {
